@@ -554,7 +554,7 @@ def b_nested_action():
 
     u = _bf_universe()
     t = u.t
-    u.make = lambda: Action(t["M"], Action(t["M2"], t["u"]))
+    u.make = lambda: Action(Action(t["M"], t["u"]), t["g"])
     return u
 
 
